@@ -55,6 +55,17 @@ def step (_ : Unit) (t : List String) : Unit × String :=
     match parseVal? arm w p m with
     | some v => showList ((cosimWindow (toWords v)).map showWord)
     | none => "bad-op"
+  | ["cosim", w, four, ws] =>
+    -- cosim_set: From<&[SvLogicVecVal]> (128 bits), Simulator::set truncates to the port width;
+    -- `assign b = a`; cosim_get: From<&Value> for Vec<SvLogicVecVal>, four-word window.
+    -- A two-state simulation stores no mask.
+    match parseHex? w, parseWords? ws with
+    | some w, some ws =>
+      if ws.length ≠ 4 ∨ (four ≠ "0" ∧ four ≠ "1") then "bad-op" else
+      let v := fromWords ws
+      let m := if four = "1" then v.mask else 0
+      showList ((cosimWindow (toWords (mkVal (v.payload % 2 ^ w) (m % 2 ^ w) w))).map showWord)
+    | _, _ => "bad-op"
   | ["vcd", arm, w, p, m] =>
     match parseVal? arm w p m with
     | some v => showBits (vcdBits v)
